@@ -17,7 +17,6 @@ VEC_MODEL_FILES = ("module_types.rs", "component_subiterator.rs", "component_ite
 # child harness modules: harness file -> source file (relative to src/) it is appended to
 CHILD_TARGETS = {
     "child_module.rs": "ir/module/mod.rs",
-    "child_order.rs": "ir/module/mod.rs",
     "child_types.rs": "ir/types.rs",
     "child_module_types.rs": "ir/module/module_types.rs",
 }
